@@ -96,6 +96,7 @@ var (
 type c16result struct {
 	held        int // notifications held back on an abandoned connection
 	appConnects int // outages ended by the application calling Connect
+	deadFirst   int // sessions whose endpoint list starts with a dead endpoint
 	windows     int // transactions committed inside a monitor window
 	c2s, s2c    int // message counts on the first connection (fault-free run)
 	findings    []finding
@@ -143,6 +144,12 @@ func c16Session(r *ev.Run, m *dyn.Model, shape c16shape, f c16fault, batch, idx 
 	}
 	l := logr.Discard()
 	opts := []client.Option{client.WithEndpoint("unix:" + px.Listen), client.WithLogger(&l)}
+	if idx%4 == 1 {
+		// an endpoint list whose first entry nobody listens on: every (re)connection has to
+		// move on to the next endpoint
+		opts = []client.Option{client.WithEndpoint(fmt.Sprintf("unix:%s/c16dead-%d-%d.sock", dir, batch, idx)), client.WithEndpoint("unix:" + px.Listen), client.WithLogger(&l)}
+		res.deadFirst = 1
+	}
 	if f.kind == "blackhole" {
 		opts = append(opts, client.WithInactivityCheck(150*time.Millisecond, 2*time.Second, backoff.NewConstantBackOff(10*time.Millisecond)))
 	} else if f.kind == "application-connects-during-outage" {
@@ -411,6 +418,33 @@ func c16Session(r *ev.Run, m *dyn.Model, shape c16shape, f c16fault, batch, idx 
 		}
 		res.appConnects = 1
 	}
+	if f.kind == "application-disconnects-and-connects" {
+		// The application itself closes the connection of a reconnecting client (which keeps
+		// its monitors), the database changes meanwhile, and the application connects again:
+		// the monitors must be restarted and the cache must catch up.
+		cl.Disconnect()
+		pre, _ = m.Snapshot(srv.DB)
+		for tn := range monitored {
+			us := dyn.SortedUUIDs(pre.T[tn])
+			if len(us) > 1 {
+				wtxn([]ref.Op{{Kind: "delete", Table: tn, Where: byUUID(us[0])}, {Kind: "update", Table: tn, Where: byUUID(us[1]), Row: ref.Row{"n": ref.Set(ref.Int(5151))}}})
+			}
+			wtxn(rowOps(tn, 1))
+		}
+		if f.k == 1 {
+			time.Sleep(60 * time.Millisecond)
+		}
+		for i := 0; i < 400; i++ {
+			cctx, ccancel := context.WithTimeout(ctx, 2*time.Second)
+			err := cl.Connect(cctx)
+			ccancel()
+			if err == nil || cl.Connected() {
+				break
+			}
+			time.Sleep(5 * time.Millisecond)
+		}
+		res.appConnects = 1
+	}
 	// bounded progress: connected again, or no new attempt for a long quiet period
 	lastAccepted, quiet := px.Accepted(), 0
 	for {
@@ -564,6 +598,9 @@ func c16Child(r *ev.Run, batch int) {
 		for k := 0; k <= 2; k++ {
 			faults = append(faults, c16fault{kind: "application-connects-during-outage", dir: proxy.C2S, k: k})
 		}
+		for k := 0; k <= 1; k++ {
+			faults = append(faults, c16fault{kind: "application-disconnects-and-connects", dir: proxy.C2S, k: k})
+		}
 		for fi, f := range faults {
 			idx++
 			if idx%nb != batch {
@@ -577,6 +614,7 @@ func c16Child(r *ev.Run, batch int) {
 			r.Count("transactions-committed-inside-a-monitor-window", res.windows)
 			r.Count("notifications-held-back-on-an-abandoned-connection", res.held)
 			r.Count("outages-ended-by-the-application-connecting", res.appConnects)
+			r.Count("sessions-with-a-dead-first-endpoint", res.deadFirst)
 			for _, fd := range res.findings {
 				n := len(res.log)
 				from := 0
